@@ -1251,3 +1251,292 @@ func runPathsDistinct(c *Ctx) {
 	c.Check(regionAllPathsHit(g, body, isInsert, stop, true), "paths-distinct/recorded", test.Pos(), "every item that passes is recorded in the set",
 		"validateManifest can go on to the next item without recording this item's path in the set it tests against: the second occurrence of that path is not noticed")
 }
+
+// ---------------------------------------------------------------------------
+// Rules that hold the repairs F71, F72 (DESIGN 8.19)
+
+func init() {
+	Register(&Rule{
+		Name:  "R-PEER-ID-FORM",
+		Props: []string{"C10"},
+		Min:   2,
+		Doc: "the id a peer connects under can be the `from` its messages carry (F71, F72): in handleWebSocket the peer is added to the hub only past utf8.ValidString(peerID) (the id travels as a JSON string; other bytes are rewritten to U+FFFD: the author is shown under another name, two such peers under the same one, and a reply to the name shown finds nobody) " +
+			"and past the refusal of the id the server signs its own notices with (protocol.ServerPeerID)",
+		Run: runPeerIDForm,
+	})
+	Register(&Rule{
+		Name:  "R-NOTICE-FROM-SERVER",
+		Props: []string{"C12", "C10"},
+		Min:   4,
+		Doc: "notices about the session are believed from the server only (F72): in the handleEnvelope of host and receiver every case clause for a type in protocol.IsServerNotice is reached only past the refusal of an envelope of such a type whose From is not protocol.ServerPeerID; " +
+			"and (sibling agreement) every envelope the server signs with that id has a type in IsServerNotice's list - the server relays any type a peer sends, so a receiver could otherwise send the host a peer_left for the receiver in front of it and be served in its place, or end every receiver with a peer_left for the host",
+		Run: runNoticeFromServer,
+	})
+}
+
+// constObj: the object an identifier or a qualified identifier (pkg.Name) refers to.
+func constObj(info *types.Info, e ast.Expr) types.Object {
+	switch x := ast.Unparen(e).(type) {
+	case *ast.Ident:
+		return ObjOf(info, x)
+	case *ast.SelectorExpr:
+		return info.Uses[x.Sel]
+	}
+	return nil
+}
+
+func serverPeerIDConst(p *Program) types.Object {
+	return p.LookupObj("pkg/protocol", "ServerPeerID")
+}
+
+// isServerIDExpr: e is the constant protocol.ServerPeerID (or a constant string of the same value).
+func isServerIDExpr(p *Program, info *types.Info, e ast.Expr) bool {
+	sid, _ := serverPeerIDConst(p).(*types.Const)
+	if sid == nil {
+		return false
+	}
+	tv, ok := info.Types[e]
+	return ok && tv.Value != nil && tv.Value.Kind() == constant.String && constant.StringVal(tv.Value) == constant.StringVal(sid.Val())
+}
+
+func runPeerIDForm(c *Ctx) {
+	p := c.P
+	hw := p.Func("cmd/thruserv.handleWebSocket")
+	if hw == nil {
+		c.MissingAnchor("cmd/thruserv.handleWebSocket")
+		return
+	}
+	if serverPeerIDConst(p) == nil {
+		c.MissingAnchor("protocol.ServerPeerID")
+		return
+	}
+	info := hw.Info()
+	spec := &PassSpec{Name: "peer-id-form", Vias: []Via{
+		{Cond: func(g *FuncInfo, e ast.Expr) (string, bool, bool) {
+			if call, ok := ast.Unparen(e).(*ast.CallExpr); ok && calleeIs(g.Info(), call, "unicode/utf8", "ValidString") && len(call.Args) == 1 {
+				return "utf8:" + types.ExprString(ast.Unparen(call.Args[0])), true, true
+			}
+			return "", false, false
+		}},
+		{Cond: func(g *FuncInfo, e ast.Expr) (string, bool, bool) {
+			be, ok := ast.Unparen(e).(*ast.BinaryExpr)
+			if !ok || (be.Op != token.EQL && be.Op != token.NEQ) {
+				return "", false, false
+			}
+			for _, pr := range [][2]ast.Expr{{be.X, be.Y}, {be.Y, be.X}} {
+				if isServerIDExpr(p, g.Info(), pr[1]) {
+					return "not-server:" + types.ExprString(ast.Unparen(pr[0])), be.Op == token.NEQ, true
+				}
+			}
+			return "", false, false
+		}},
+	}}
+	n := 0
+	hw.CFG().Calls(func(r NodeRef, call *ast.CallExpr) {
+		g := p.CalleeInfo(info, call)
+		if g == nil || (g.Name != "peers.(*Hub).AddIf" && g.Name != "peers.(*Hub).Add") || len(call.Args) < 2 {
+			return
+		}
+		// the peer id that is registered: the PeerID field of the Peer argument
+		var idExpr string
+		for _, d := range resolveExprs(hw, call.Args[1], 2) {
+			if cl, ok := ast.Unparen(d).(*ast.CompositeLit); ok {
+				if v := litField(cl, "PeerID"); v != nil {
+					idExpr = types.ExprString(ast.Unparen(v))
+				}
+			}
+		}
+		n++
+		if idExpr == "" {
+			c.Unknown(fmt.Sprintf("peer-id-form/add#%d", n), call.Pos(), "cannot read the peer id of the Peer handed to the hub")
+			return
+		}
+		c.Check(spec.Passed(hw, r, "utf8:"+idExpr), fmt.Sprintf("peer-id-form/add#%d/utf8", n), call.Pos(), "the peer is registered only under an id that is valid UTF-8",
+			"a peer is registered under "+idExpr+" without utf8.ValidString having accepted it: the id is the `from` of everything the peer sends, written as a JSON string - other bytes become U+FFFD, "+
+				"the author is shown under a name it did not connect with, two such peers look alike, and a reply addressed to the name shown is answered with peer_not_found")
+		c.Check(spec.Passed(hw, r, "not-server:"+idExpr), fmt.Sprintf("peer-id-form/add#%d/reserved", n), call.Pos(), "the id the server signs its notices with is refused",
+			"a peer can register under the id the server signs its own notices with ("+idExpr+" is not compared with protocol.ServerPeerID): its messages carry from=\"server\" and pass for peer_left, peer_joined or turn_credentials of the server")
+	})
+	if n == 0 {
+		c.Bad("peer-id-form/none", hw.Pos(), "handleWebSocket does not register the peer with the hub")
+	}
+}
+
+func runNoticeFromServer(c *Ctx) {
+	p := c.P
+	pred := p.Func("protocol.IsServerNotice")
+	if pred == nil || serverPeerIDConst(p) == nil {
+		c.MissingAnchor("protocol.IsServerNotice / protocol.ServerPeerID")
+		return
+	}
+	// the types in its list
+	notice := map[types.Object]bool{}
+	ast.Inspect(pred.Body, func(m ast.Node) bool {
+		if cc, ok := m.(*ast.CaseClause); ok {
+			returnsTrue := false
+			for _, st := range cc.Body {
+				if rs, ok := st.(*ast.ReturnStmt); ok && len(rs.Results) == 1 && types.ExprString(rs.Results[0]) == "true" {
+					returnsTrue = true
+				}
+			}
+			if returnsTrue {
+				for _, e := range cc.List {
+					if o := constObj(pred.Info(), e); o != nil {
+						notice[o] = true
+					}
+				}
+			}
+		}
+		return true
+	})
+	if len(notice) == 0 {
+		c.Unknown("notice-from-server/list", pred.Pos(), "cannot read the list of notice types of protocol.IsServerNotice (expected a switch whose cases return true)")
+		return
+	}
+	// (clients) every case clause for a notice type is behind the refusal
+	nc := 0
+	for _, name := range []string{"app.(*SnapshotSender).handleEnvelope", "app.(*snapshotReceiver).handleEnvelope"} {
+		f := p.Func(name)
+		if f == nil {
+			c.MissingAnchor(name)
+			continue
+		}
+		info := f.Info()
+		spec := &PassSpec{Name: "from-server", Vias: []Via{
+			{Cond: func(g *FuncInfo, e ast.Expr) (string, bool, bool) {
+				// IsServerNotice(t) && X.From != ServerPeerID: on the false edge a notice comes from the server
+				be, ok := ast.Unparen(e).(*ast.BinaryExpr)
+				if !ok || be.Op != token.LAND {
+					return "", false, false
+				}
+				isPred, fromTest := false, false
+				for _, a := range Implied(be, true) {
+					if call, ok := ast.Unparen(a.E).(*ast.CallExpr); ok && a.Val && p.CalleeInfo(g.Info(), call) == pred {
+						isPred = true
+						continue
+					}
+					if b2, ok := ast.Unparen(a.E).(*ast.BinaryExpr); ok && (b2.Op == token.NEQ && a.Val || b2.Op == token.EQL && !a.Val) {
+						for _, pr := range [][2]ast.Expr{{b2.X, b2.Y}, {b2.Y, b2.X}} {
+							if sel, ok := ast.Unparen(pr[0]).(*ast.SelectorExpr); ok && sel.Sel.Name == "From" && isServerIDExpr(p, g.Info(), pr[1]) {
+								fromTest = true
+							}
+						}
+						continue
+					}
+					return "", false, false
+				}
+				if isPred && fromTest {
+					return "notices-from-server", false, true
+				}
+				return "", false, false
+			}},
+			{Cond: func(g *FuncInfo, e ast.Expr) (string, bool, bool) {
+				// X.From != ServerPeerID alone (inside a case clause)
+				b2, ok := ast.Unparen(e).(*ast.BinaryExpr)
+				if !ok || (b2.Op != token.NEQ && b2.Op != token.EQL) {
+					return "", false, false
+				}
+				for _, pr := range [][2]ast.Expr{{b2.X, b2.Y}, {b2.Y, b2.X}} {
+					if sel, ok := ast.Unparen(pr[0]).(*ast.SelectorExpr); ok && sel.Sel.Name == "From" && isServerIDExpr(p, g.Info(), pr[1]) {
+						return "notices-from-server", b2.Op == token.EQL, true
+					}
+				}
+				return "", false, false
+			}},
+		}}
+		g := f.CFG()
+		InspectNoLits(f.Body, func(m ast.Node) bool {
+			cc, ok := m.(*ast.CaseClause)
+			if !ok {
+				return true
+			}
+			var which []string
+			for _, e := range cc.List {
+				if o := constObj(info, e); o != nil && notice[o] {
+					which = append(which, o.Name())
+				}
+			}
+			if len(which) == 0 || len(cc.Body) == 0 {
+				return true
+			}
+			nc++
+			key := fmt.Sprintf("notice-from-server/%s/%s", f.Name, strings.Join(which, "+"))
+			// judged at the last statement of the clause that acts (a return of the refusal inside the clause comes before it)
+			ok2 := false
+			for _, st := range cc.Body {
+				if is, isIf := st.(*ast.IfStmt); isIf && len(is.Body.List) > 0 {
+					if _, ret := is.Body.List[len(is.Body.List)-1].(*ast.ReturnStmt); ret {
+						continue // a refusal at the head of the clause: judged behind it
+					}
+				}
+				pos := st.Pos()
+				if is, isIf := st.(*ast.IfStmt); isIf {
+					pos = is.Cond.Pos()
+					if is.Init != nil {
+						pos = is.Init.Pos()
+					}
+				}
+				if ref := g.Find(pos); ref.Valid() {
+					ok2 = spec.Passed(f, ref, "notices-from-server")
+					break
+				}
+			}
+			c.Check(ok2, key, cc.Pos(), "acted on only when the envelope comes from the server",
+				f.Name+" acts on "+strings.Join(which, ", ")+" whoever sent it: the server relays every type a peer writes (with the peer's own id as from), so a receiver that waits behind another one can report it as gone and be served in its place, "+
+					"cancel a running transfer, or end every receiver with a peer_left for the host")
+			return true
+		})
+	}
+	if nc == 0 {
+		c.Bad("notice-from-server/clients/none", token.NoPos, "found no case clause for a server notice in the handleEnvelope of host and receiver")
+	}
+	// (server) everything signed with the server's id has a type of the list
+	ns := 0
+	for _, f := range p.FuncsIn("cmd/thruserv") {
+		if f.Body == nil {
+			continue
+		}
+		info := f.Info()
+		InspectNoLits(f.Body, func(m ast.Node) bool {
+			as, ok := m.(*ast.AssignStmt)
+			if !ok || len(as.Lhs) != 1 || len(as.Rhs) != 1 {
+				return true
+			}
+			sel, ok := ast.Unparen(as.Lhs[0]).(*ast.SelectorExpr)
+			if !ok || sel.Sel.Name != "From" || !isServerIDExpr(p, info, as.Rhs[0]) {
+				return true
+			}
+			envObj := ObjOf(info, sel.X)
+			if envObj == nil {
+				return true
+			}
+			// the envelope's type: first argument of the NewEnvelope that defined it
+			var typ types.Object
+			for g := f; g != nil && typ == nil; g = g.Parent {
+				gi := g.Info()
+				InspectNoLits(g.Body, func(x ast.Node) bool {
+					a2, ok := x.(*ast.AssignStmt)
+					if !ok || len(a2.Rhs) != 1 || len(a2.Lhs) < 1 || ObjOf(gi, a2.Lhs[0]) != envObj {
+						return true
+					}
+					if call, ok := ast.Unparen(a2.Rhs[0]).(*ast.CallExpr); ok && calleeIs(gi, call, RepoPkg("pkg/protocol"), "NewEnvelope") && len(call.Args) >= 1 {
+						typ = constObj(gi, call.Args[0])
+					}
+					return true
+				})
+			}
+			ns++
+			key := fmt.Sprintf("notice-from-server/signed/%s#%d", f.Name, ns)
+			if typ == nil {
+				c.Unknown(key, as.Pos(), "cannot read the type of the envelope the server signs here")
+				return true
+			}
+			c.Check(notice[typ], key, as.Pos(), typ.Name()+" is in the list of protocol.IsServerNotice",
+				"the server signs a "+typ.Name()+" with its own id, but protocol.IsServerNotice does not list that type: the clients act on it whoever sends it, so any peer of the session can forge it")
+			return true
+		})
+	}
+	if ns == 0 {
+		c.Bad("notice-from-server/signed/none", token.NoPos, "found no envelope signed with protocol.ServerPeerID in cmd/thruserv")
+	}
+}
